@@ -1081,6 +1081,172 @@ theorem sendOp_inv {A : Allocator} (L : AllocLaws A) (cfg : Cfg) (hneed : ∀ b,
               simp only [ho] at hrg
               exact .inr ⟨rfl, fun evs b h r hcontra => hrg evs b h r hcontra⟩
 
+theorem closeOp_inv {A : Allocator} (L : AllocLaws A) (c : Conn A) (s : Sess) (hc : c.sess = some s) (hi : Inv L c) :
+    Inv L (closeOp c s).2 := by
+  have hs := hi.sessOk s hc
+  have hw0 : WInv L c.w (clientRefs c.held ++ s.prevIn.toList) := by
+    have := hi.winv; rwa [refs_eq c s hc] at this
+  obtain ⟨cs, hcs, hlogs⟩ := hs.carry
+  unfold closeOp
+  by_cases hcl : s.closed = true
+  · simpa [hcl] using hi
+  · simp only [hcl, Bool.false_eq_true, if_false]
+    simp only [closeSess, hcs, drainW_inl _ cs (leOnly_of_logsOnly cs hlogs), Gen.C29.finalReleasedBeforeEos, if_true]
+    refine ⟨?_, ?_⟩
+    · simp only [refs, serverRefs, Option.toList_none, List.append_nil]
+      cases hsd : s.srvDone with
+      | true =>
+        have := hs.done_prev hsd
+        simpa [this] using hw0
+      | false =>
+        simp only [Bool.false_eq_true, if_false]
+        exact winv_free_opt L _ _ _ (winv_perm hw0 List.perm_append_comm)
+    · intro s' hs'
+      simp only [Option.some.injEq] at hs'
+      subst hs'
+      exact ⟨⟨[], rfl, rfl⟩, fun _ => rfl, fun _ => rfl, fun _ => rfl⟩
+
+theorem reqPhase_inv {A : Allocator} (L : AllocLaws A) (cfg : Cfg) (hneed : ∀ b, 0 < cfg.need b) (w : World A)
+    (rs : List Hnd) (req : Option Batch) (h : WInv L w rs) : WInv L (reqPhase cfg w req).2 rs := by
+  cases req with
+  | none => exact h
+  | some rb =>
+    simp only [reqPhase, Gen.C29.requestFinallyReleases, if_true, recv_put cfg hneed w _ rb rfl]
+    exact winv_free_opt L _ _ _ (winv_put L cfg hneed w rs rb h)
+
+theorem respPhase_inv {A : Allocator} (L : AllocLaws A) (cfg : Cfg) (hneed : ∀ b, 0 < cfg.need b) (w : World A)
+    (rs : List Hnd) (logs : List Log) (v : Nat) (h : WInv L w rs) : WInv L (respPhase cfg w logs v).2 rs := by
+  have hrg := read_good cfg hneed [.data (resultBatch v)] (logItems logs) w (put cfg w (resultBatch v)).2
+    (logsOnly_logItems logs) rfl rfl
+  simp only [outcome, putItems_single] at hrg
+  obtain ⟨evs, e, _⟩ := hrg
+  unfold respPhase
+  simp only [inlLogs, e, Gen.C29.unaryFinallyReleases, if_true]
+  exact winv_free_opt L _ _ _ (winv_put L cfg hneed w rs _ h)
+
+theorem callOp_inv {A : Allocator} (L : AllocLaws A) (cfg : Cfg) (hneed : ∀ b, 0 < cfg.need b) (c : Conn A)
+    (logs : List Log) (out : Except Exn Nat) (req : Option Batch) (hi : Inv L c) :
+    Inv L (callOp cfg c logs out req).2 := by
+  have h1 := reqPhase_inv L cfg hneed c.w (refs c) req hi.winv
+  unfold callOp
+  cases out with
+  | error e => exact ⟨h1, hi.sessOk⟩
+  | ok v => exact ⟨respPhase_inv L cfg hneed _ (refs c) logs v h1, hi.sessOk⟩
+
+theorem clientRefs_release (held : List HeldB) (k : Nat) (hb : HeldB) (hk : held[k]? = some hb)
+    (hr : hb.released = false) :
+    (clientRefs held).Perm (hb.h.toList ++ clientRefs (held.set k { hb with released := true })) := by
+  induction held generalizing k with
+  | nil => simp at hk
+  | cons x t ih =>
+    cases k with
+    | zero =>
+      simp only [List.getElem?_cons_zero, Option.some.injEq] at hk
+      subst hk
+      cases hx : x.h <;> simp [clientRefs, hr, hx]
+    | succ k =>
+      simp only [List.getElem?_cons_succ] at hk
+      have := ih k hk
+      simp only [List.set_cons_succ, clientRefs, List.filterMap_cons] at this ⊢
+      cases hx : (if x.released then none else x.h) with
+      | none => simpa [hx] using this
+      | some y =>
+        simp only []
+        refine (List.Perm.cons y this).trans ?_
+        exact List.perm_middle.symm
+
+theorem releaseOp_inv {A : Allocator} (L : AllocLaws A) (c : Conn A) (k : Nat) (hi : Inv L c) :
+    Inv L (releaseOp c k) := by
+  unfold releaseOp
+  cases hk : c.held[k]? with
+  | none => exact hi
+  | some hb =>
+    simp only [Gen.C29.releaseIdempotent, Bool.and_true]
+    cases hr : hb.released with
+    | true => simpa using hi
+    | false =>
+      simp only [Bool.false_eq_true, if_false]
+      refine ⟨?_, hi.sessOk⟩
+      have hp := clientRefs_release c.held k hb hk hr
+      have hw := hi.winv
+      simp only [refs] at hw ⊢
+      refine winv_free_opt L _ _ _ (winv_perm hw ?_)
+      rw [← List.append_assoc]
+      exact List.Perm.append_right _ hp
+
+theorem serverRefs_closed {A : Allocator} (L : AllocLaws A) (c : Conn A) (hi : Inv L c) (hq : sessionOpen c.sess = false) :
+    serverRefs c.sess = [] := by
+  cases hc : c.sess with
+  | none => rfl
+  | some s =>
+    have hs := hi.sessOk s hc
+    have hcl : s.closed = true := by simpa [sessionOpen, hc] using hq
+    simp [serverRefs, hs.done_prev (hs.closed_done hcl)]
+
+theorem step_inv {A : Allocator} (L : AllocLaws A) (cfg : Cfg) (hneed : ∀ b, 0 < cfg.need b) (c : Conn A) (op : Op)
+    (hi : Inv L c) : Inv L (step cfg c op).2 := by
+  cases op with
+  | call logs out req =>
+    simp only [step]
+    split
+    · exact hi
+    · exact callOp_inv L cfg hneed c logs out req hi
+  | openS exch early init il steps =>
+    simp only [step]
+    split
+    · exact hi
+    · rename_i hq
+      have hq' : sessionOpen c.sess = false := by simpa using hq
+      have hsr := serverRefs_closed L c hi hq'
+      refine ⟨?_, ?_⟩
+      · have := hi.winv
+        simp only [refs, hsr, List.append_nil] at this
+        simpa [refs, serverRefs] using this
+      · intro s hs
+        simp only [Option.some.injEq] at hs
+        subst hs
+        refine ⟨?_, fun _ => rfl, by simp, ?_⟩
+        · cases init with
+          | none => exact ⟨logItems il, rfl, logsOnly_logItems il⟩
+          | some e => exact ⟨[], rfl, rfl⟩
+        · intro h
+          cases init with
+          | none => simp at h
+          | some e => rfl
+  | tick =>
+    simp only [step]
+    cases hc : c.sess with
+    | none => exact hi
+    | some s => exact sendOp_inv L cfg hneed c s none none hc hi
+  | send inp coerce =>
+    simp only [step]
+    cases hc : c.sess with
+    | none => exact hi
+    | some s => exact sendOp_inv L cfg hneed c s (some inp) coerce hc hi
+  | close =>
+    simp only [step]
+    cases hc : c.sess with
+    | none => exact hi
+    | some s => exact closeOp_inv L c s hc hi
+  | cancel =>
+    simp only [step]
+    cases hc : c.sess with
+    | none => exact hi
+    | some s => exact closeOp_inv L c s hc hi
+  | release k => exact releaseOp_inv L c k hi
+
+theorem init_inv {A : Allocator} (L : AllocLaws A) : Inv L (Conn.init A) := by
+  refine ⟨⟨L.init_ok, ?_, ?_⟩, ?_⟩
+  · simp [Conn.init, refs, clientRefs, serverRefs, L.init_live]
+  · intro h hh; simp [Conn.init, refs, clientRefs, serverRefs] at hh
+  · intro s hs; simp [Conn.init] at hs
+
+theorem run_inv {A : Allocator} (L : AllocLaws A) (cfg : Cfg) (hneed : ∀ b, 0 < cfg.need b) (ops : List Op) :
+    ∀ c : Conn A, Inv L c → Inv L (run cfg c ops).2 := by
+  induction ops with
+  | nil => intro c h; exact h
+  | cons op r ih => intro c h; exact ih _ (step_inv L cfg hneed c op h)
+
 end Aux
 
 end VgiVerif.C29
